@@ -878,3 +878,43 @@ def cell_types_and_grid(vk, cfg):
                 ensures_same(vk, f"export/{name}/measure of every exported cell (VTK) == volume of the mesh cell", bool(np.allclose(np.abs(np.asarray(sized.cell_data[key])), spec, rtol=1e-12, atol=1e-14) and np.all(spec > 0)), True)
         vk.canary_bool("the leading count column is part of the connectivity", not np.array_equal(flat[:, :-1], C))
         vk.note("C16 observation (not an obligation): Mesh.as_unstructured_grid documents **kwargs as 'additional keyword-arguments for pyvista.UnstructuredGrid' but never forwards them (silently ignored)")
+
+
+@contract("C16", "update_bookkeeping", configs=[dict(cells=k) for k in (1, 2)], engine="ground")
+def update_bookkeeping(vk, cfg):
+    """DiscreteGeometry.update (run by Mesh.__init__ and every Mesh.update): npoints / ncells / ndof / dim, the sorted
+    lists of points without and with cells, point_has_cell, and cells_per_point (number of attached cells; -1 for a
+    point without cells) -- for points without cells ANYWHERE in the numbering (leading, interior, trailing).
+    B (bounded, never counted): exhaustive over all connectivity arrays of 1 / 2 triangles on up to 6 points"""
+    if not vk.sym:
+        return
+    import itertools
+
+    vk.real(DG.DiscreteGeometry.update)
+    ncells = cfg["cells"]
+    ok, n, bad = True, 0, ""
+    with symnp.native():
+        for npoints in range(3, 7):
+            pts = np.arange(2.0 * npoints).reshape(npoints, 2)
+            for conn in itertools.product(itertools.permutations(range(npoints), 3), repeat=ncells):
+                if any(c[0] > min(c[1:]) for c in conn):  # one representative per rotation of a cell's numbering
+                    continue
+                if ncells == 2 and conn[0] > conn[1]:
+                    continue
+                cells_ = np.array(conn)
+                m = fem.Mesh(pts[:3].copy(), np.array([[0, 1, 2]]), "triangle")
+                m.update(points=pts, cells=cells_)
+                used = sorted(set(cells_.ravel().tolist()))
+                unused = [p for p in range(npoints) if p not in used]
+                count = [int(np.sum(cells_ == p)) for p in range(npoints)]
+                good = m.npoints == npoints and m.ncells == ncells and m.ndof == 2 * npoints and m.dim == 2
+                good = good and list(m.points_without_cells) == unused and list(m.points_with_cells) == used
+                cpp = list(np.asarray(m.cells_per_point))
+                good = good and cpp == ([c if c else -1 for c in count] if unused else count)
+                if unused:
+                    good = good and list(np.asarray(m.point_has_cell)) == [p in used for p in range(npoints)]
+                n += 1
+                if not good and not bad:
+                    bad = f"Mesh.update(points=({npoints}, 2), cells={cells_.tolist()}): points_without_cells={list(m.points_without_cells)} (expected {unused}), cells_per_point={cpp}"
+                ok = ok and good
+    vk.bounded_standin("update: points without / with cells, cells per point, sizes", f"all connectivity arrays of {ncells} triangle(s) on <= 6 points up to rotation of the local numbering" + (": " + bad if bad else ""), n, bool(ok), detail=bad)
